@@ -630,7 +630,17 @@ func (o *opCtx) exec(kind, k int) string {
 		d.addf("sum=%d", sum)
 	case opCRS:
 		np := uint64(1 + rng.Intn(12))
+		if k%4 == 3 {
+			np = uint64([]int{257, 300, 13, 64}[rng.Intn(4)]) // also more points than a configuration uses
+		}
 		pts := ipa.GenerateRandomPoints(np)
+		want := ref.CRS(int(np))
+		for i := range pts {
+			if g, ok := ElemToRef(&pts[i]); !ok || !ref.ClassEqual(g, ref.FromAffine(want[i])) {
+				o.modified("wrong-result/GenerateRandomPoints", fmt.Sprintf("GenerateRandomPoints(%d)[%d] is not the %d-th point of the hash-and-increment sequence (the result depends on earlier calls)", np, i, i))
+				break
+			}
+		}
 		for i := range pts {
 			d.elem(&pts[i])
 			pts[i].SetIdentity() // the returned slice is the caller's: scribble on it ...
@@ -673,6 +683,30 @@ func (o *opCtx) exec(kind, k int) string {
 		var ok bool
 		p, _ := monTry(func() { ok, err = multiproof.CheckMultiProof(common.NewTranscript(label), env.Conf, &bad, Cs, ys, zs) })
 		d.addf("ok=%v err=%v panic=%v", ok, err != nil, p != nil)
+		// the prover's error path: an un-normalisable commitment after repeated pointers - an error, and nothing written
+		{
+			_, Cs2, fs2, zs2, _ := o.buildStatement(rng, 4)
+			var badC banderwagon.Element
+			Cs2 = []*banderwagon.Element{Cs2[0], Cs2[0], Cs2[1], Cs2[0], &badC}
+			fs2 = append(fs2[:4:4], fs2[0])
+			zs2 = append(zs2[:4:4], zs2[0])
+			snapC := make([]banderwagon.Element, len(Cs2))
+			for i := range Cs2 {
+				snapC[i] = *Cs2[i]
+			}
+			var perr error
+			pp, _ := monTry(func() { _, perr = multiproof.CreateMultiProof(common.NewTranscript("bad"), env.Conf, Cs2, fs2, zs2) })
+			d.addf("prover err=%v panic=%v", perr != nil, pp != nil)
+			if perr == nil && pp == nil {
+				o.modified("no-error/CreateMultiProof/un-normalisable-commitment", "CreateMultiProof returned no error although one commitment cannot be normalised")
+			}
+			for i := range Cs2 {
+				if *Cs2[i] != snapC[i] {
+					o.modified("input-modified/CreateMultiProof/error-path", fmt.Sprintf("CreateMultiProof failed (or should have) but modified commitment %d", i))
+					break
+				}
+			}
+		}
 		// a failing transcript/codec call in between
 		var e banderwagon.Element
 		d.addf("%v %v", e.SetBytes([]byte{1, 2, 3}) != nil, e.SetBytesUncompressed(make([]byte, 63), false) != nil)
